@@ -46,7 +46,7 @@ func runC01(e *Env) {
 	e.S.Floor("C01.subject", 2)
 	// "through any input path": an exported function or method of the package that takes a text and is not one of the
 	// paths read here hands that text, whole and unchanged, to one of them — or what it accepts is not known
-	ruleLateEntriesDelegate(e, "C01.paths", "date")
+	ruleLateEntriesDelegate(e, "C01.paths", "date", "Date")
 	ruleScanPath(e, "C01.paths")
 	// C01.fmt takes Bprintf as "append the formatted text to buf": that summary is an obligation of its own —
 	// the bytes handed back are the caller's buffer extended, not storage shared with later calls
